@@ -23,6 +23,7 @@ EXPLANATION = (
     "_check_declaration for the same path; the no-op redeclaration requires equal role and equal creator "
     "(finite-domain table). Does not decide all path spellings: the director trusts the client to normalise (C20). "
     "Also: R-C08-5 a claim taken from a detached owner invalidates the owner's whole detached creator chain; R-C08-6 a declaration that lands under a detached static tree, or is matched by a detached step's pattern, invalidates that owner (otherwise the tree/pattern is revived unchecked by a full recycle)."
+    ' R-C08-6b the invalidation covers every role of the declared file; R-C08-9 a volatile declaration invalidates detached consumers, and a step with an attached volatile input is not fully recycled.'
 )
 ASSUMPTIONS = ["labels arrive normalised from the client (C20)", "prefix selections are exact (C18)"]
 
